@@ -83,7 +83,7 @@ theorem C10_accepts_authentic (cr : Crypto) (c : Creds) (im : InMsg) (s : Spec.S
     (huser : im.m.user = c.user)
     (hauthf : authFlag im.m = c.auth.isSome) (hprivf : privFlag im.m = c.priv.isSome)
     (hdigest : ∀ pw, c.auth = some pw → ∃ z, im.zeroed = some z ∧ im.m.authParams = cr.mac (cr.loc pw im.m.engineId) z)
-    (hpayload : extractScoped cr c im.m = .ok s) (hnoerr : hasUsmError s.pdu.varbinds = false) :
+    (hpayload : extractScoped cr c im.m = .ok s) (hnoerr : hasUsmError s.pdu = false) :
     processIncoming cr c im = .ok s := by
   unfold processIncoming
   have h0 : shapeCheck im.m = .ok () := by
@@ -154,5 +154,28 @@ theorem C10_localise (ku : Bytes) (padding : Nat) (eid : Bytes) (h : ku.length =
     localiseBuffer ku padding eid = ku ++ eid ++ ku := by
   unfold localiseBuffer
   rw [← h, List.take_length]
+
+/-- The usmStats counters are ordinary objects: only a Report-PDU (tag octet 0xA8) is searched for
+    them (`validate_usm_message`, guard generated into `Gen.usmErrorPduTags`). -/
+theorem C10_only_reports_searched (p : Spec.Pdu) (h : p.tag ≠ 168) : hasUsmError p = false := by
+  have : usmErrorPdu p.tag = false := by
+    simp [usmErrorPdu, Gen.usmErrorPduTags, h]
+  simp [hasUsmError, this]
+
+/-- Hence an authentic response (any PDU but a Report) is accepted and decoded to its content
+    whatever objects it carries — the agent's own usmStats counters included. -/
+theorem C10_accepts_counters (cr : Crypto) (c : Creds) (im : InMsg) (s : Spec.ScopedPdu)
+    (huser : im.m.user = c.user)
+    (hauthf : authFlag im.m = c.auth.isSome) (hprivf : privFlag im.m = c.priv.isSome)
+    (hdigest : ∀ pw, c.auth = some pw → ∃ z, im.zeroed = some z ∧ im.m.authParams = cr.mac (cr.loc pw im.m.engineId) z)
+    (hpayload : extractScoped cr c im.m = .ok s) (hresp : s.pdu.tag ≠ 168) :
+    processIncoming cr c im = .ok s :=
+  C10_accepts_authentic cr c im s huser hauthf hprivf hdigest hpayload (C10_only_reports_searched s.pdu hresp)
+
+/-- non-vacuity: a GetResponse carrying usmStatsNotInTimeWindows is not an error; the same
+    bindings in a Report are -/
+example : hasUsmError { tag := 162, requestId := 1, a := 0, b := 0, varbinds := [([1, 3, 6, 1, 6, 3, 15, 1, 1, 2, 0], .counter32 7)] } = false
+    ∧ hasUsmError { tag := 168, requestId := 1, a := 0, b := 0, varbinds := [([1, 3, 6, 1, 6, 3, 15, 1, 1, 2, 0], .counter32 7)] } = true := by
+  decide
 
 end Snmp.Props.C10
